@@ -27,10 +27,40 @@ def _mat(case):
         if case.get("dtype") == "int" and all(x.denominator == 1 for r in M for x in r):
             return np.array([[int(x) for x in r] for r in M], dtype=np.int64)
         return np.array([[float(x) for x in r] for r in M], dtype=float)
-    return np.array(case["A"], dtype=float if case.get("dtype") == "float" else int)
+    from props.gcommon import DTYPES
+    return np.array(case["A"], dtype=DTYPES.get(case.get("dtype", "int")))
+
+
+def check_long(case):
+    """add_edges / remove_edges on a directed path through p ~ 1200 scrambled nodes (deep graphs)."""
+    import sempler.utils as utils
+    from props.gcommon import has_cycle_big
+    p, a, k = case["p"], case["a"], case["k"]
+    lab = [(a * i + 5) % p for i in range(p)]
+    A = np.zeros((p, p))
+    for i in range(p - 1):
+        A[lab[i], lab[i + 1]] = 1.0 if i % 3 else -2.0
+    keep = A.copy()
+    pat = A != 0
+    if case["op"] == "add":
+        res = np.asarray(must(lib(utils.add_edges, A, k, random_state=case["seed"]), "add_edges(path on %d nodes, %d)" % (p, k)))
+        got = res != 0
+        if got.shape != (p, p) or (pat & ~got).any() or int(got.sum()) != p - 1 + k or np.diag(got).any() or (got & got.T).any() or has_cycle_big(got):
+            raise Violation("add_wrong_long", "add_edges on a %d-node path: %d edges (expected %d), supergraph=%r, acyclic=%r"
+                            % (p, int(got.sum()), p - 1 + k, not (pat & ~got).any(), not has_cycle_big(got)))
+    else:
+        res = np.asarray(must(lib(utils.remove_edges, A, k, random_state=case["seed"]), "remove_edges(path on %d nodes, %d)" % (p, k)))
+        got = res != 0
+        if got.shape != (p, p) or (got & ~pat).any() or int(got.sum()) != p - 1 - k:
+            raise Violation("remove_wrong_long", "remove_edges on a %d-node path: %d edges left (expected %d)" % (p, int(got.sum()), p - 1 - k))
+    if not np.array_equal(A, keep):
+        raise Violation("input_modified", "%s_edges modified its argument" % case["op"])
+    return ["long_path", "weighted", "op_" + case["op"]]
 
 
 def check(case):
+    if case["sub"] == "long_path":
+        return check_long(case)
     import sempler.utils as utils
     A = _mat(case)
     keep = A.copy()
@@ -115,7 +145,7 @@ def _run_exh(acc, job):
             for op, top in (("remove", m), ("add", cap)):
                 for k in range(0, top + 2):
                     for seed in (0, 1 + n % 5, None):
-                        case = {"sub": "grid_exh", "A": G.lists_from_rows(D), "dtype": "float" if (n + k) % 2 else "int",
+                        case = {"sub": "grid_exh", "A": G.lists_from_rows(D), "dtype": ["int", "float", "uint8", "bool", "int32", "float32"][(n + k) % 6],
                                 "op": op, "k": k, "seed": seed}
                         try:
                             lab = check(case)
@@ -130,7 +160,7 @@ def _run_exh(acc, job):
 def _hyp_case(draw):
     kind = draw(st.sampled_from(["binary", "weighted", "weighted", "faithless", "embedded"]))
     if kind == "binary":
-        case = {"A": draw(S.dag_pattern(1, 9)), "dtype": draw(st.sampled_from(["int", "float"]))}
+        case = {"A": draw(S.dag_pattern(1, 9)), "dtype": draw(st.sampled_from(["int", "float", "uint8", "bool", "float32"]))}
     elif kind == "weighted":
         W, cls = draw(S.weighted_dag(1, 9))
         case = {"W": W, "dtype": draw(st.sampled_from(["int", "float"]))}
@@ -160,6 +190,8 @@ def _hyp_check(case):
 
 def plan(tier, seed):
     jobs = [{"sub": "grid_exh", "ps": [1, 2, 3], "shard": 0, "nshards": 1, "seed": seed, "cost": 2}]
+    for n, (p, op) in enumerate([(1200, "add"), (1300, "remove")] + ([(1500, "add"), (2000, "add")] if tier == "thorough" else [])):
+        jobs.append({"sub": "long_path", "seed": seed, "p": p, "op": op, "cost": 50})
     for k in range(16):
         jobs.append({"sub": "grid_exh", "ps": [4], "shard": k, "nshards": 16, "seed": seed, "cost": 6})
     n = scaled(16000 if tier == "quick" else 240000)
@@ -171,7 +203,17 @@ def plan(tier, seed):
 
 def run(job):
     acc = Acc(job["sub"])
-    if job["sub"] == "grid_exh":
+    if job["sub"] == "long_path":
+        p = job["p"]
+        a = next(x for x in range(p // 3 + job["seed"] % 11, p) if np.gcd(x, p) == 1)
+        case = {"sub": "long_path", "p": p, "a": int(a), "k": 20, "op": job["op"], "seed": job["seed"] % 1000}
+        try:
+            acc.record(case, check(case), True, by_construction=True)
+        except Violation as v:
+            acc.record(case, [], False)
+            acc.violation(case, v)
+        acc.exhaustive = False
+    elif job["sub"] == "grid_exh":
         _run_exh(acc, job)
     else:
         run_property(acc, _hyp_case(), _hyp_check, _nontrivial, job["n"], job_seed(job))
